@@ -1,0 +1,41 @@
+//go:build verif
+
+package contract
+
+// Contracts for the verif build tag (comment-only; see /verif/DESIGN.md).
+
+//@ prop C16
+//@ import callflag github.com/nspcc-dev/neo-go/pkg/smartcontract/callflag
+
+// Call-site obligations of the contract-call path: whatever the caller passes, a method
+// marked safe is entered without the write-states and allow-notify flags, and the flags
+// handed on are a subset of the requested ones.
+//@ func callInternal
+//@ requires ic != nil && ic.VM != nil && cs != nil && md != nil
+//@ opt frame off
+//@ opt opaque-callees CanCall
+//@ opt stable ic.VM, md.Safe, md.Name
+//@ call callExFromNative requires[safe] md.Safe ==> arg5 & (callflag.WriteStates | callflag.AllowNotify) == 0
+//@ call callExFromNative requires[shrink] arg5 & f == arg5
+//@ call callExFromNative requires[method] same(arg3, md.Name)
+
+//@ func callExFromNative
+//@ may-panic
+//@ requires ic != nil && ic.VM != nil && cs != nil
+//@ opt frame off
+//@ opt stable ic.VM
+//@ call LoadNEFMethod requires[shrink] arg5 & f == arg5
+
+//@ prop C04,C16
+// The unload callback of a contract call: on an uncaught exception in a wrapped call every
+// notification made since the call is dropped and the private DAO layer is abandoned; on
+// success the layer is merged; either way the caller's DAO is restored.
+//@ func callExFromNative$1
+//@ requires ic != nil && ic.DAO != nil && 0 <= baseNtfCount && baseNtfCount <= len(ic.Notifications)
+//@ opt frame off
+//@ opt stable ic.DAO, ic.Notifications
+//@ call Persist requires[commit-only] wrapped && commit
+//@ ensures[rollback] wrapped && !commit ==> len(ic.Notifications) == baseNtfCount && ic.DAO == baseDAO
+//@ ensures[merge] wrapped && commit && result == nil ==> ic.DAO == baseDAO
+//@ ensures[untouched] !wrapped ==> ic.DAO == old(ic.DAO) && same(ic.Notifications, old(ic.Notifications))
+//@ ensures[native] callFromNative && !commit ==> result != nil
